@@ -232,6 +232,11 @@ fn run(name: &str, args: &[String]) -> Option<String> {
             make_aggsig_final_message(op, &mut m, &spend, &k);
             Some(hexo(&m))
         }
+        "cond.coinid" => {
+            // PARENT PH AMOUNT -> Coin::coin_id (the coin-id function of chia-protocol)
+            let coin = chia_protocol::Coin::new(Bytes32::new(b32(&args[0])), Bytes32::new(b32(&args[1])), dec(&args[2]));
+            Some(hex::encode(coin.coin_id()))
+        }
         "cond.ucost" => Some(format!("{}", compute_unknown_condition_cost(dec(&args[0]) as u16))),
         "cond.opcode" => {
             let mut a = Allocator::new();
